@@ -14,7 +14,7 @@ func (m *Machine) binop(op token.Token, XT types.Type, x, y Value, YT types.Type
 		b, ok := y.(*Term)
 		if !ok {
 			if bp, isP := y.(Ptr); isP {
-				return m.ptrArith(op, bp, a, true)
+				return m.ptrArith(op, bp, a, true, XT, YT)
 			}
 			m.unsupported("binop %s on %T,%T", op, x, y)
 		}
@@ -32,8 +32,11 @@ func (m *Machine) binop(op token.Token, XT types.Type, x, y Value, YT types.Type
 					return m.st.Const(64, uint64(a.Off-b.Off))
 				}
 			}
+			if _, isInt := XT.Underlying().(*types.Basic); isInt && XT.Underlying().(*types.Basic).Kind() != types.UnsafePointer {
+				return m.termBinop(op, XT, m.addrOf(a), m.addrOf(b), YT)
+			}
 		case *Term:
-			return m.ptrArith(op, a, b, false)
+			return m.ptrArith(op, a, b, false, XT, YT)
 		case nil:
 			return m.binop(op, XT, a, Ptr{}, YT)
 		case TypeTok, *Closure:
@@ -143,13 +146,38 @@ func ptrEq(a, b Ptr) bool {
 	return a.ID == b.ID && a.Off == b.Off && a.Sym == b.Sym
 }
 
-func (m *Machine) ptrArith(op token.Token, p Ptr, t *Term, swapped bool) Value {
+// Address model of last resort: when code computes with the *number* behind a
+// pointer (masks, shifts, packing into a word) the pointer is given the
+// address addrBase + id<<20 + offset. One arbitrary layout, 1 MiB apart:
+// anything that depends on the relative placement of two objects is explored
+// for this layout only (stated in DESIGN.md §1.4).
+const addrBase = 0xc000000000
+
+func (m *Machine) addrOf(p Ptr) *Term {
+	if p.Sym != nil {
+		m.unsupported("address of a pointer with a symbolic offset")
+	}
+	if p.ID == 0 {
+		return m.st.Const(64, uint64(p.Off))
+	}
+	return m.st.Const(64, addrBase+uint64(p.ID)<<20+uint64(p.Off))
+}
+
+func ptrFromAddr(k uint64) Ptr {
+	if k < addrBase {
+		return Ptr{Off: int64(k)}
+	}
+	k -= addrBase
+	return Ptr{ID: int32(k >> 20), Off: int64(k & (1<<20 - 1))}
+}
+
+func (m *Machine) ptrArith(op token.Token, p Ptr, t *Term, swapped bool, XT, YT types.Type) Value {
 	if !t.IsConst() && (op == token.ADD || op == token.SUB) {
 		t = m.st.Const(64, uint64(m.constInt(t, "pointer offset")))
 	}
 	switch op {
 	case token.ADD:
-		if t.IsConst() {
+		if t.IsConst() && (t.SVal() < 1<<32 && t.SVal() > -(1<<32)) {
 			if p.ID == 0 && p.Off == 0 {
 				return t
 			}
@@ -157,23 +185,25 @@ func (m *Machine) ptrArith(op token.Token, p Ptr, t *Term, swapped bool) Value {
 			return p
 		}
 	case token.SUB:
-		if t.IsConst() && !swapped {
+		if t.IsConst() && !swapped && (t.SVal() < 1<<32 && t.SVal() > -(1<<32)) {
 			p.Off -= t.SVal()
 			return p
 		}
 	case token.EQL, token.NEQ:
 		// uintptr(ptr) == 0 etc.
-		eq := false
-		if t.IsConst() {
-			eq = p.ID == 0 && p.Off == t.SVal()
+		if t.IsConst() && t.K < addrBase {
+			eq := p.ID == 0 && p.Off == t.SVal()
+			if op == token.EQL {
+				return m.st.Bool(eq)
+			}
+			return m.st.Bool(!eq)
 		}
-		if op == token.EQL {
-			return m.st.Bool(eq)
-		}
-		return m.st.Bool(!eq)
 	}
-	m.unsupported("pointer arithmetic %s with symbolic/unsupported operand", op)
-	return nil
+	a := m.addrOf(p)
+	if swapped {
+		return m.termBinop(op, XT, t, a, YT)
+	}
+	return m.termBinop(op, XT, a, t, YT)
 }
 
 func (m *Machine) floatBinop(op token.Token, a, b *Term) Value {
@@ -445,7 +475,7 @@ func (m *Machine) convert(from, to types.Type, x Value) Value {
 			switch v := x.(type) {
 			case *Term:
 				if v.IsConst() {
-					return Ptr{Off: int64(v.K)}
+					return ptrFromAddr(v.K)
 				}
 				m.unsupported("symbolic integer to unsafe.Pointer")
 			}
@@ -493,6 +523,9 @@ func (m *Machine) convert(from, to types.Type, x Value) Value {
 					}
 					return p // uintptr -> int etc, keep provenance
 				}
+				if p, isP := x.(Ptr); isP && t.Info()&types.IsInteger != 0 {
+					return m.convert(types.Typ[types.Uint64], to, m.addrOf(p))
+				}
 				m.unsupported("convert %T to %s", x, to)
 			}
 			fb, _ := fu.(*types.Basic)
@@ -517,7 +550,10 @@ func (m *Machine) convert(from, to types.Type, x Value) Value {
 					}
 					return m.st.Const(32, uint64(math.Float32bits(float32(math.Float64frombits(v.K)))))
 				}
-				m.unsupported("float width conversion on symbolic value")
+				if tw == 64 {
+					return m.f32to64(v)
+				}
+				return m.f64to32(v)
 			case !ff && tf:
 				if v.IsConst() {
 					var f float64
